@@ -126,10 +126,14 @@ def CPc.pre (g : State) : CPc → Prop
 
 /-- The side condition of the action the worker standing at `w` is about to run, in the state `g` it runs in:
     * `store.put` of a put with time-to-live: `now + ttl` is representable AT THE WORKER'S CLOCK;
-    * `kw.update` of a charged id: neither the difference to the charged weight nor the new total overflows `i64`. -/
+    * `kw.update` of a charged id: neither the difference to the charged weight nor the new total overflows `i64`;
+    * `wu.space` (the three calls of `is_space_available_for` inside a put: the first one, the one after an eviction,
+      the one when the sample ran dry): `max_weight - weight_used` is representable in `i64`, WITH THE TOTAL AS IT IS WHEN
+      THIS ACTION RUNS. It is whenever the total is not negative (`C17_layerB_space_overflow_needs_negative_total`). -/
 def WPc.pre (g : State) : WPc → Prop
   | .storePut c => timeOk g.now c.ttl
   | .update id w _ => updatePre g.adm.used w (g.adm.kw.get? id)
+  | .space0 _ | .evSpace _ _ _ | .emptySpace _ => g.adm.spaceOverflow = false
   | _ => True
 
 instance (g : State) (pc : CPc) : Decidable (pc.pre g) := by
@@ -230,9 +234,56 @@ theorem np_workerAct_update {b b' : BState} {o o' : Oracle} {id : Nat} {w : Int}
       simp only [Except.ok.injEq, Prod.mk.injEq] at h; obtain ⟨rfl, rfl⟩ := h
       exact Or.inr ⟨hp, rfl, rfl, rfl⟩
 
+/-- `wu.space`: the worker dies iff `max_weight - weight_used` is outside `i64` -/
+theorem workerAct_wuSpace {b b' : BState} {o o' : Oracle}
+    (hw : (∃ c, b.w = .space0 c) ∨ (∃ c e s, b.w = .evSpace c e s) ∨ (∃ c, b.w = .emptySpace c))
+    (h : workerAct b o = .ok (b', o')) :
+    (b.g.adm.spaceOverflow = false ∧ b'.w ≠ .dead ∧ b'.g.worker = b.g.worker) ∨
+    (b.g.adm.spaceOverflow = true ∧ b'.w = .dead ∧ b'.g.worker = .dead ∧ b'.g.queue = []) := by
+  rcases hw with ⟨c, hw⟩ | ⟨c, e, s, hw⟩ | ⟨c, hw⟩
+  · simp only [workerAct, hw] at h
+    split at h
+    · cases h
+    · split at h
+      · rename_i hov
+        simp only [Except.ok.injEq, Prod.mk.injEq] at h; obtain ⟨rfl, rfl⟩ := h
+        exact Or.inr ⟨hov, rfl, rfl, rfl⟩
+      · rename_i hov
+        have hov : b.g.adm.spaceOverflow = false := by simpa using hov
+        split at h
+        · simp only [Except.ok.injEq, Prod.mk.injEq] at h; obtain ⟨rfl, rfl⟩ := h
+          exact Or.inl ⟨hov, by simp, rfl⟩
+        · split at h
+          · cases h
+          · simp only [Except.ok.injEq, Prod.mk.injEq] at h; obtain ⟨rfl, rfl⟩ := h
+            exact Or.inl ⟨hov, by simp, rfl⟩
+  · simp only [workerAct, hw] at h
+    split at h
+    · cases h
+    · split at h
+      · rename_i hov
+        simp only [Except.ok.injEq, Prod.mk.injEq] at h; obtain ⟨rfl, rfl⟩ := h
+        exact Or.inr ⟨hov, rfl, rfl, rfl⟩
+      · rename_i hov
+        simp only [Except.ok.injEq, Prod.mk.injEq] at h; obtain ⟨rfl, rfl⟩ := h
+        exact Or.inl ⟨by simpa using hov, by simp, rfl⟩
+  · simp only [workerAct, hw] at h
+    split at h
+    · cases h
+    · split at h
+      · rename_i hov
+        simp only [Except.ok.injEq, Prod.mk.injEq] at h; obtain ⟨rfl, rfl⟩ := h
+        exact Or.inr ⟨hov, rfl, rfl, rfl⟩
+      · rename_i hov
+        have hov : b.g.adm.spaceOverflow = false := by simpa using hov
+        split at h
+        all_goals simp only [Except.ok.injEq, Prod.mk.injEq] at h; obtain ⟨rfl, rfl⟩ := h
+        · exact Or.inl ⟨hov, by simp, rfl⟩
+        · exact Or.inl ⟨hov, by simp [rejectCmd, finishCmd], rfl⟩
+
 /-- the positions of the worker that have a panic site -/
 def WPc.risky : WPc → Bool
-  | .storePut _ | .update _ _ _ => true
+  | .storePut _ | .update _ _ _ | .space0 _ | .evSpace _ _ _ | .emptySpace _ => true
   | _ => false
 
 /-- at every other position the worker survives, and only `recv` of `Shutdown` changes its mode (to `draining`) -/
@@ -256,6 +307,15 @@ theorem workerAct_pre {b b' : BState} {o o' : Oracle} (h : workerAct b o = .ok (
     exact Or.inl ⟨hp, wtrans_alive (workerAct_trans h) hr⟩
   | true =>
     cases hw : b.w <;> simp only [hw, WPc.risky] at hr <;> try cases hr
+    · rcases workerAct_wuSpace (Or.inl ⟨_, hw⟩) h with ⟨h1, h2, h3⟩ | ⟨h1, h2⟩
+      · exact Or.inl ⟨by simpa [WPc.pre] using h1, h2, fun hne => by rw [h3]; exact hne⟩
+      · exact Or.inr ⟨by simpa [WPc.pre] using h1, h2⟩
+    · rcases workerAct_wuSpace (Or.inr (Or.inl ⟨_, _, _, hw⟩)) h with ⟨h1, h2, h3⟩ | ⟨h1, h2⟩
+      · exact Or.inl ⟨by simpa [WPc.pre] using h1, h2, fun hne => by rw [h3]; exact hne⟩
+      · exact Or.inr ⟨by simpa [WPc.pre] using h1, h2⟩
+    · rcases workerAct_wuSpace (Or.inr (Or.inr ⟨_, hw⟩)) h with ⟨h1, h2, h3⟩ | ⟨h1, h2⟩
+      · exact Or.inl ⟨by simpa [WPc.pre] using h1, h2, fun hne => by rw [h3]; exact hne⟩
+      · exact Or.inr ⟨by simpa [WPc.pre] using h1, h2⟩
     · rcases workerAct_storePut hw h with ⟨h1, h2, h3⟩ | ⟨h1, h2⟩
       · exact Or.inl ⟨by simpa [WPc.pre] using h1, h2, fun hne => by rw [h3]; exact hne⟩
       · exact Or.inr ⟨by simpa [WPc.pre] using h1, h2⟩
